@@ -18,7 +18,8 @@ RULE = (
     "FileAnonymizer(anon_pwd).anonymize_io. Oracles: outputs byte-identical and INFO+ log records identical; every slot "
     "holds something that is not the secret with the text around it kept (scrub forms: scrub notice, secret gone); the "
     "secret occurs neither in its replacement nor in any INFO+ record. standalone: a single $1$/$9$ token among keywords of "
-    "the patterns, benign words and numbers - the token must be gone. Non-trivial = run whose two instantiations differ in "
+    "the patterns, benign words and numbers - the token must be gone. longline: a recognised secret line behind a padding token so "
+    "that the physical line exceeds 64 KiB and the 65536-character mark falls inside the keyword or the secret. Non-trivial = run whose two instantiations differ in "
     "every slot with at least one non-text slot; distinct by (forms, optional parts, classes, pattern)."
 )
 ASSUMPTIONS = [
@@ -50,11 +51,11 @@ def _instantiate(case, which):
     return out
 
 
-def _anonymize(lines, salt):
+def _anonymize(lines, salt, undo=False):
     from netconan.anonymize_files import FileAnonymizer
 
     with core.capture_logs(logging.INFO) as records:
-        fa = FileAnonymizer(anon_pwd=True, anon_ip=False, salt=salt)
+        fa = FileAnonymizer(anon_pwd=True, anon_ip=False, undo_ip_anon=undo, salt=salt)
         out = core.run_io(fa, "".join(l + "\n" for l in lines))
     return out.split("\n")[:-1] if out.endswith("\n") else out.split("\n"), list(records)
 
@@ -109,7 +110,7 @@ def check_run(case, ev):
     inst = [_instantiate(case, 0), _instantiate(case, 1)]
     res = []
     for k in (0, 1):
-        r, exc = guarded(_anonymize, [x[0] for x in inst[k]], salt)
+        r, exc = guarded(_anonymize, [x[0] for x in inst[k]], salt, bool(case.get("undo")))
         if exc is not None:
             return core.exc_finding(exc, case, "run/")
         res.append(r)
@@ -221,7 +222,31 @@ def check_standalone(case, ev):
     return Finding("standalone/hash-survives:%s" % why, "%r -> %r" % (line, out), case)
 
 
-REPLAY = {"runs": check_run, "standalone": check_standalone}
+def check_longline(case, ev):
+    """A recognised secret line at the end of a physical line longer than 64 KiB (the padding is one
+    long token in front of it): the secret must be replaced exactly as on a short line."""
+    form = S.FORM_BY_ID[case["form"]]
+    v = case["value"]
+    body, spans = S.render(form, case["head"], case["trail"], [v])
+    pad = "description " + "x" * case["pad"] + " "
+    line = pad + body.lstrip()
+    shift = len(pad) - (len(body) - len(body.lstrip()))
+    r, exc = guarded(_anonymize, [line], "Tsalt")
+    if exc is not None:
+        return core.exc_finding(exc, case, "run/")
+    outs = r[0]
+    ev.case(case, True, ["form-" + form.id, "long-line"])
+    if len(outs) != 1:
+        return Finding("long/line-count-changed", "one line of %d characters became %d lines" % (len(line), len(outs)), case)
+    if form.mode in ("scrub", "either") and S.SCRUB in outs[0]:
+        return None if v not in outs[0].replace(S.SCRUB, " ") else Finding("long/secret-kept", "secret %r kept in a %d-character line" % (v, len(line)), case)
+    rs = S.extract_replacements(line, [(a + shift, b + shift) for a, b in spans], outs[0])
+    if rs is None or rs[0] == v or v in outs[0][len(pad) - 1 :]:
+        return Finding("long/secret-kept-or-context-changed:%s" % form.id, "line of %d characters ending in %r -> ...%r" % (len(line), line[-80:], outs[0][-120:]), case)
+    return None
+
+
+REPLAY = {"runs": check_run, "standalone": check_standalone, "longline": check_longline}
 
 # ---------------------------------------------------------------- generators
 
@@ -302,9 +327,25 @@ def t_standalone(shard, nshards, seed, ev, known, n=500):
     return core.hyp_drive(_standalone_case(), check_standalone, n, seed, ev, known, check_name="standalone")
 
 
+@st.composite
+def _long_case(draw):
+    form = draw(st.sampled_from([f for f in S.FORMS if f.slots == 1 and "exact" not in f.text_kw]))
+    c, v = draw(S.secret_for(form))
+    head = draw(st.integers(0, len(form.heads) - 1))
+    body, _ = S.render(form, head, 0, [v])
+    # the 65536-character mark falls somewhere inside the keyword / secret part of the line
+    pad = 65536 * draw(st.sampled_from([1, 1, 2])) - len("description ") - 1 - draw(st.integers(0, len(body) + 2))
+    return {"form": form.id, "head": head, "trail": 0, "value": v, "cls": c, "pad": pad}
+
+
+def t_longline(shard, nshards, seed, ev, known, n=40):
+    return core.hyp_drive(_long_case(), check_longline, n, seed, ev, known, check_name="longline")
+
+
 def plan(tier):
     q = tier == "quick"
     return [
         Task("runs", t_runs, shards=8 if q else 16, n=700 if q else 40000),
         Task("standalone", t_standalone, shards=2 if q else 16, n=600 if q else 20000),
+        Task("longline", t_longline, shards=2 if q else 8, n=25 if q else 800),
     ]
